@@ -510,6 +510,26 @@ Require Verif.Tie.Loops.Nuget.
 Require Verif.Tie.Loops.Pypi.
 Require Verif.Tie.Loops.Rpm.
 Require Verif.Tie.Loops.Semver.
+Require Verif.Tie.Parse.Alpm.
+Require Verif.Tie.Parse.Apache.
+Require Verif.Tie.Parse.ApacheRange.
+Require Verif.Tie.Parse.Cargo.
+Require Verif.Tie.Parse.Conan.
+Require Verif.Tie.Parse.CranRange.
+Require Verif.Tie.Parse.Debian.
+Require Verif.Tie.Parse.DebianRange.
+Require Verif.Tie.Parse.Gem.
+Require Verif.Tie.Parse.Gentoo.
+Require Verif.Tie.Parse.GentooRange.
+Require Verif.Tie.Parse.Github.
+Require Verif.Tie.Parse.Hex.
+Require Verif.Tie.Parse.Mattermost.
+Require Verif.Tie.Parse.Maven.
+Require Verif.Tie.Parse.Npm.
+Require Verif.Tie.Parse.Nuget.
+Require Verif.Tie.Parse.Rpm.
+Require Verif.Tie.Parse.RpmRange.
+Require Verif.Tie.Parse.Semver.
 Definition C06_tie_loops_alpine_hasLeadingZero_no_panic := Verif.Tie.Loops.Alpine.loops_alpine_hasLeadingZero_no_panic.
 Print Assumptions C06_tie_loops_alpine_hasLeadingZero_no_panic.
 Definition C06_tie_loops_alpine_compareNumericArraysNumeric_no_panic := Verif.Tie.Loops.Alpine.loops_alpine_compareNumericArraysNumeric_no_panic.
@@ -562,4 +582,94 @@ Definition C06_tie_loops_rpm_compareRPMVersionString_no_panic := Verif.Tie.Loops
 Print Assumptions C06_tie_loops_rpm_compareRPMVersionString_no_panic.
 Definition C06_tie_loops_semver_comparePrerelease_no_panic := Verif.Tie.Loops.Semver.loops_semver_comparePrerelease_no_panic.
 Print Assumptions C06_tie_loops_semver_comparePrerelease_no_panic.
+Definition C06_tie_newversion_alpm_no_panic := Verif.Tie.Parse.Alpm.newversion_alpm_no_panic.
+Print Assumptions C06_tie_newversion_alpm_no_panic.
+Definition C06_tie_parse_alpm_newversion := Verif.Tie.Parse.Alpm.tie_parse_alpm_newversion.
+Print Assumptions C06_tie_parse_alpm_newversion.
+Definition C06_tie_newversion_apache_no_panic := Verif.Tie.Parse.Apache.newversion_apache_no_panic.
+Print Assumptions C06_tie_newversion_apache_no_panic.
+Definition C06_tie_parse_apache_newversion := Verif.Tie.Parse.Apache.tie_parse_apache_newversion.
+Print Assumptions C06_tie_parse_apache_newversion.
+Definition C06_tie_parse_apache_parseConstraint := Verif.Tie.Parse.ApacheRange.tie_parse_apache_parseConstraint.
+Print Assumptions C06_tie_parse_apache_parseConstraint.
+Definition C06_tie_parse_apache_parseConstraints := Verif.Tie.Parse.ApacheRange.tie_parse_apache_parseConstraints.
+Print Assumptions C06_tie_parse_apache_parseConstraints.
+Definition C06_tie_parse_apache_newversionrange := Verif.Tie.Parse.ApacheRange.tie_parse_apache_newversionrange.
+Print Assumptions C06_tie_parse_apache_newversionrange.
+Definition C06_tie_newversion_cargo_no_panic := Verif.Tie.Parse.Cargo.newversion_cargo_no_panic.
+Print Assumptions C06_tie_newversion_cargo_no_panic.
+Definition C06_tie_parse_cargo_newversion := Verif.Tie.Parse.Cargo.tie_parse_cargo_newversion.
+Print Assumptions C06_tie_parse_cargo_newversion.
+Definition C06_tie_newversion_conan_no_panic := Verif.Tie.Parse.Conan.newversion_conan_no_panic.
+Print Assumptions C06_tie_newversion_conan_no_panic.
+Definition C06_tie_parse_conan_newversion := Verif.Tie.Parse.Conan.tie_parse_conan_newversion.
+Print Assumptions C06_tie_parse_conan_newversion.
+Definition C06_tie_parse_cran_parseConstraint := Verif.Tie.Parse.CranRange.tie_parse_cran_parseConstraint.
+Print Assumptions C06_tie_parse_cran_parseConstraint.
+Definition C06_tie_parse_cran_parseConstraints := Verif.Tie.Parse.CranRange.tie_parse_cran_parseConstraints.
+Print Assumptions C06_tie_parse_cran_parseConstraints.
+Definition C06_tie_parse_cran_newversionrange := Verif.Tie.Parse.CranRange.tie_parse_cran_newversionrange.
+Print Assumptions C06_tie_parse_cran_newversionrange.
+Definition C06_tie_newversion_debian_no_panic := Verif.Tie.Parse.Debian.newversion_debian_no_panic.
+Print Assumptions C06_tie_newversion_debian_no_panic.
+Definition C06_tie_parse_debian_newversion := Verif.Tie.Parse.Debian.tie_parse_debian_newversion.
+Print Assumptions C06_tie_parse_debian_newversion.
+Definition C06_tie_parse_debian_parseConstraint := Verif.Tie.Parse.DebianRange.tie_parse_debian_parseConstraint.
+Print Assumptions C06_tie_parse_debian_parseConstraint.
+Definition C06_tie_parse_debian_parseConstraints := Verif.Tie.Parse.DebianRange.tie_parse_debian_parseConstraints.
+Print Assumptions C06_tie_parse_debian_parseConstraints.
+Definition C06_tie_parse_debian_newversionrange := Verif.Tie.Parse.DebianRange.tie_parse_debian_newversionrange.
+Print Assumptions C06_tie_parse_debian_newversionrange.
+Definition C06_tie_newversion_gem_no_panic := Verif.Tie.Parse.Gem.newversion_gem_no_panic.
+Print Assumptions C06_tie_newversion_gem_no_panic.
+Definition C06_tie_parse_gem_parseSegments := Verif.Tie.Parse.Gem.tie_parse_gem_parseSegments.
+Print Assumptions C06_tie_parse_gem_parseSegments.
+Definition C06_tie_parse_gem_newversion := Verif.Tie.Parse.Gem.tie_parse_gem_newversion.
+Print Assumptions C06_tie_parse_gem_newversion.
+Definition C06_tie_newversion_gentoo_no_panic := Verif.Tie.Parse.Gentoo.newversion_gentoo_no_panic.
+Print Assumptions C06_tie_newversion_gentoo_no_panic.
+Definition C06_tie_parse_gentoo_newversion := Verif.Tie.Parse.Gentoo.tie_parse_gentoo_newversion.
+Print Assumptions C06_tie_parse_gentoo_newversion.
+Definition C06_tie_parse_gentoo_parseSingleConstraint := Verif.Tie.Parse.GentooRange.tie_parse_gentoo_parseSingleConstraint.
+Print Assumptions C06_tie_parse_gentoo_parseSingleConstraint.
+Definition C06_tie_parse_gentoo_parseRange := Verif.Tie.Parse.GentooRange.tie_parse_gentoo_parseRange.
+Print Assumptions C06_tie_parse_gentoo_parseRange.
+Definition C06_tie_parse_gentoo_newversionrange := Verif.Tie.Parse.GentooRange.tie_parse_gentoo_newversionrange.
+Print Assumptions C06_tie_parse_gentoo_newversionrange.
+Definition C06_tie_newversion_github_no_panic := Verif.Tie.Parse.Github.newversion_github_no_panic.
+Print Assumptions C06_tie_newversion_github_no_panic.
+Definition C06_tie_parse_github_newversion := Verif.Tie.Parse.Github.tie_parse_github_newversion.
+Print Assumptions C06_tie_parse_github_newversion.
+Definition C06_tie_newversion_hex_no_panic := Verif.Tie.Parse.Hex.newversion_hex_no_panic.
+Print Assumptions C06_tie_newversion_hex_no_panic.
+Definition C06_tie_newversion_mattermost_no_panic := Verif.Tie.Parse.Mattermost.newversion_mattermost_no_panic.
+Print Assumptions C06_tie_newversion_mattermost_no_panic.
+Definition C06_tie_newversion_maven_no_panic := Verif.Tie.Parse.Maven.newversion_maven_no_panic.
+Print Assumptions C06_tie_newversion_maven_no_panic.
+Definition C06_tie_parse_maven_isValidMavenVersion := Verif.Tie.Parse.Maven.tie_parse_maven_isValidMavenVersion.
+Print Assumptions C06_tie_parse_maven_isValidMavenVersion.
+Definition C06_tie_parse_maven_newversion := Verif.Tie.Parse.Maven.tie_parse_maven_newversion.
+Print Assumptions C06_tie_parse_maven_newversion.
+Definition C06_tie_newversion_npm_no_panic := Verif.Tie.Parse.Npm.newversion_npm_no_panic.
+Print Assumptions C06_tie_newversion_npm_no_panic.
+Definition C06_tie_parse_npm_newversion := Verif.Tie.Parse.Npm.tie_parse_npm_newversion.
+Print Assumptions C06_tie_parse_npm_newversion.
+Definition C06_tie_newversion_nuget_no_panic := Verif.Tie.Parse.Nuget.newversion_nuget_no_panic.
+Print Assumptions C06_tie_newversion_nuget_no_panic.
+Definition C06_tie_parse_nuget_newversion := Verif.Tie.Parse.Nuget.tie_parse_nuget_newversion.
+Print Assumptions C06_tie_parse_nuget_newversion.
+Definition C06_tie_newversion_rpm_no_panic := Verif.Tie.Parse.Rpm.newversion_rpm_no_panic.
+Print Assumptions C06_tie_newversion_rpm_no_panic.
+Definition C06_tie_parse_rpm_newversion := Verif.Tie.Parse.Rpm.tie_parse_rpm_newversion.
+Print Assumptions C06_tie_parse_rpm_newversion.
+Definition C06_tie_parse_rpm_parseConstraint := Verif.Tie.Parse.RpmRange.tie_parse_rpm_parseConstraint.
+Print Assumptions C06_tie_parse_rpm_parseConstraint.
+Definition C06_tie_parse_rpm_parseConstraints := Verif.Tie.Parse.RpmRange.tie_parse_rpm_parseConstraints.
+Print Assumptions C06_tie_parse_rpm_parseConstraints.
+Definition C06_tie_parse_rpm_newversionrange := Verif.Tie.Parse.RpmRange.tie_parse_rpm_newversionrange.
+Print Assumptions C06_tie_parse_rpm_newversionrange.
+Definition C06_tie_newversion_semver_no_panic := Verif.Tie.Parse.Semver.newversion_semver_no_panic.
+Print Assumptions C06_tie_newversion_semver_no_panic.
+Definition C06_tie_parse_semver_newversion := Verif.Tie.Parse.Semver.tie_parse_semver_newversion.
+Print Assumptions C06_tie_parse_semver_newversion.
 (* ====== ties to the source: END ====== *)
